@@ -5,6 +5,8 @@ Recipes are plain JSON.  ``build_*`` functions turn them into Cirq objects; they
 """
 from __future__ import annotations
 
+import math
+
 from hypothesis import strategies as st
 
 # ------------------------------------------------------------------------------------------ numbers / expressions
@@ -85,9 +87,12 @@ def build_farg(tree):
     e = build_expr(tree)
     if isinstance(e, sympy.Basic) and not e.free_symbols:
         try:
-            return float(e)
+            x = float(e)
         except TypeError:
             raise ValueError("degenerate expression (zoo/nan)")
+        if not math.isfinite(x):  # constant folding gave nan / inf: not a number a gate argument can hold
+            raise ValueError("degenerate expression (nan/inf)")
+        return x
     if isinstance(e, sympy.Basic) and (e.has(sympy.zoo) or e.has(sympy.nan) or e.has(sympy.oo)):
         raise ValueError("degenerate expression (zoo/nan)")
     return e
